@@ -84,4 +84,21 @@ def stepB (s : State) : EvB → State × Except PyErr (List Out)
     | .ok r => (r.1, .ok r.2)
     | .error e => (s, .error e)
 
+/-! ### the statement-level model (timer state, callbacks that publish) on bytes -/
+
+/-- events of the statement-level model with received vectors given as bytes -/
+inductive EvXB where
+  | raw (comp : Bytes) (cb : Cb)   -- a sync Interest whose name[-2] is `comp`; the callback, if it fires, does `cb`
+  | ev (e : EvX)
+  deriving Repr
+
+/-- `sync_handler` + timer task on the bytes of `name[-2]`: `Except.error` = the *decoder's* exception propagated
+    (nothing happened); an exception of the application's callback is `ObsX.raised` (everything happened) -/
+def stepXB (t : TState) : EvXB → TState × Except PyErr ObsX
+  | .ev e => let r := stepX t e; (r.1, .ok r.2)
+  | .raw comp cb =>
+    match decodeVectorE comp with
+    | .ok es => let r := stepX t (.recvCb es cb); (r.1, .ok r.2)
+    | .error e => if caught e then (t, .ok ⟨[], false⟩) else (t, .error e)
+
 end Ndn.Svs
